@@ -9,7 +9,16 @@ from .tcp_gen import DAYS, ZONES, gen_epoch_zone, gen_hhmm, uidify
 BAD = ["", "13", "1300", "ab:cd", "25:00", "12:60", "12:", ":30", "24:00", "99:99", "noon", "x:y", "2100", "7:"]
 
 
-def gen_c11(rng, full: bool) -> Dict[str, Any]:
+def gen_c11(rng, full: bool, ticking: bool = False) -> Dict[str, Any]:
+    if ticking:
+        tick = rng.choice([1_000_000, 400_000_000, 30_000_000_000])
+        scn = gen_c11(rng, False)
+        scn["config"]["tick_ns"] = tick
+        scn["config"]["epoch0"] = near_midnight(rng, scn["config"]["tz"], scn["config"]["epoch0"], tick)
+        first = [s for s in scn["steps"] if s["kind"] == "roundtrip"][0]
+        first["hhmm"] = first["hhmm"][:rng.randrange(2, 12)]
+        scn["steps"] = [first]
+        return scn
     tz = rng.choice(ZONES)
     epoch0 = gen_epoch_zone(rng, tz)
     steps: List[dict] = []
